@@ -1,5 +1,5 @@
 """C19 - the sparse Rips filtration: subcomplex of Rips, never earlier, valid filtration (proved); interleaving bound (measured)."""
-import itertools, json, os
+import itertools, json, os, zlib
 from fractions import Fraction
 from math import comb, isqrt
 from vlib import core
@@ -273,8 +273,13 @@ def bstr(b):
     return "%d/%d" % (b.numerator, b.denominator)
 
 
+SCALES = (0, 0, 0, -80, -60, 50, -300, 200)
+
+
 def make_case(ctor, m, pts, e, mini, maxi, dim, origin):
-    return dict(ctor=ctor, n=len(m), eps=list(e), mini=bstr(mini), maxi=bstr(maxi), dim=dim, points=pts, matrix=m, origin=origin)
+    # the unit (a power of two: exact) and how many create_complex calls the object has already served are a function of the data
+    h = zlib.crc32(repr((ctor, m, list(e), dim)).encode())
+    return dict(scale=SCALES[h % 8], pre=(h >> 8) % 3, ctor=ctor, n=len(m), eps=list(e), mini=bstr(mini), maxi=bstr(maxi), dim=dim, points=pts, matrix=m, origin=origin)
 
 
 def generate(rng, tier):
@@ -353,7 +358,8 @@ def harness_line(c):
     else:
         k = len(c["points"][0]) if c["points"] else 0
         data = " ".join(str(x) for p in c["points"] for x in p)
-    return "C %s %d %d %d %s %s %d %d %s" % (c["ctor"], n, c["eps"][0], c["eps"][1], c["mini"] or "-inf", c["maxi"] or "inf", c["dim"], k, data)
+    head = "H %d %d" % (c.get("scale", 0), c.get("pre", 0)) if (c.get("scale") or c.get("pre")) else "C"
+    return head + " %s %d %d %d %s %s %d %d %s" % (c["ctor"], n, c["eps"][0], c["eps"][1], c["mini"] or "-inf", c["maxi"] or "inf", c["dim"], k, data)
 
 
 def parse_cpp(ans):
@@ -444,6 +450,8 @@ def evaluate(c, cpp, orc, res=None):
         res.traces_validated += 1
         res.count("simplices-compared", len(sx))
         branch_stats(c, order, res)
+        res.count("unit of length 2^%d" % c.get("scale", 0))
+        res.count("create_complex calls served before by the same object: %d" % c.get("pre", 0))
         res.count("kept-vertices:" + ("all" if len(order.split()) == c["n"] else "cut by mini / lambda <= 0"))
     if flagsd["sub"] != "1":
         bad = [s for s in sx if any(c["matrix"][u][v] > s[1] for u in s[0] for v in s[0])][:1]
